@@ -170,4 +170,13 @@ theorem setSignal_inv {p : Prog} {s : State} (h : InvR p s) {x : Nat} {v0 : Int}
     exact Nat.le_trans (h.verLe w e he) (verMono e.1)
   · intro w a ha; rw [srcE] at ha; rw [kE]; exact h.srcData w a ha
 
+/-- the state after the store and before the notifications has the same graph and states -/
+theorem setSignal_pre (s : State) (x : Nat) (v : Int) (i : Nat) :
+    let s1 := (s.upd x fun n => { n with val := some v, ver := n.ver + 1 }).emit (.set x)
+    (s1.get i).kind = (s.get i).kind ∧ (s1.get i).st = (s.get i).st ∧ (s1.get i).subs = (s.get i).subs ∧
+    (s1.get i).alive = (s.get i).alive := by
+  simp only [State.emit_get]
+  rw [State.get_upd]; split <;> exact ⟨rfl, rfl, rfl, rfl⟩
+
+
 end Leptos.Reactive
